@@ -16,6 +16,26 @@ Theorem order_by_weight_sorts : forall nps : list pool,
 Proof. exact (fun nps => conj (order_by_weight_perm nps) (order_by_weight_sorted nps)). Qed.
 Print Assumptions order_by_weight_sorts.
 
+(* ---- only READY pools ----
+   NewScheduler builds templates only for NodePools whose Ready condition is True (False, Unknown and a missing
+   condition all exclude the pool), that are dynamic and not being deleted; so for every pool list and every
+   outcome assignment the pool that receives the pod is such a pool, chosen by priority among such pools. *)
+Theorem ready_pools_only : forall (nps : list npool) (out : pool -> outcome) (i : nat),
+  add_to_new (map out (scheduler_pools nps)) = Chosen i ->
+  exists n, List.In n nps /\ usable n /\ nth_error (scheduler_pools nps) i = Some (np_pool n) /\ out (np_pool n) = OOk /\
+    forall m, List.In m nps -> usable m -> outranks (np_pool m) (np_pool n) -> out (np_pool m) = OErr.
+Proof. exact ready_pools_only_l. Qed.
+Print Assumptions ready_pools_only.
+
+Theorem templates_are_usable_pools : forall (nps : list npool) (p : pool),
+  List.In p (scheduler_pools nps) -> exists n, List.In n nps /\ np_pool n = p /\ usable n.
+Proof. exact not_usable_never_in_templates. Qed.
+Print Assumptions templates_are_usable_pools.
+
+Theorem oracle_pool_ready_iff : forall nps name, placed_ready_b nps name = true <-> placed_ready nps name.
+Proof. exact placed_ready_reflect. Qed.
+Print Assumptions oracle_pool_ready_iff.
+
 (* ---- weight priority of one scheduling attempt ----
    For every set of pools (any input order, ties included) and every assignment [out] of evaluation
    outcomes to pools: if addToNewNodeClaim over the templates in OrderByWeight order creates the claim from
@@ -204,6 +224,13 @@ Open Scope string_scope.
 Example order_example :
   map pname (order_by_weight [mkPool "a" 10; mkPool "b" 0; mkPool "ab" 10; mkPool "z" 50])
   = ["z"; "ab"; "a"; "b"].
+Proof. vm_compute. reflexivity. Qed.
+
+(* a heavier pool whose Ready condition is Unknown, and one without conditions, get no template *)
+Example ready_example :
+  map pname (scheduler_pools [mkNP (mkPool "pending" 100) RUnknown false false; mkNP (mkPool "new" 50) RAbsent false false;
+                              mkNP (mkPool "ok" 1) RTrue false false; mkNP (mkPool "broken" 90) RFalse false false;
+                              mkNP (mkPool "static" 80) RTrue true false; mkNP (mkPool "going" 70) RTrue false true]) = ["ok"].
 Proof. vm_compute. reflexivity. Qed.
 
 (* the second pool is chosen because the first fails; a reserved error in front blocks instead *)
